@@ -1,6 +1,6 @@
 (* C05 driver. One history per line:
    E <prefix> <S|C> <nn> {<name>}*nn <nev> {event}*nev
-   events:  R <pattern> <method> | B <k> <path> <method> <who> <status> <id> <any> {<value>}*nn
+   events:  R <pattern> <method> (accepted) | Q <pattern> <method> (rejected, recovered) | B <k> <path> <method> <who> <status> <id> <any> {<value>}*nn
           | W <k> <code> | F <k> | X <k> <who> <status> <id> <any> {<value>}*nn
           | Y <k> ret|rec|esc <who> <status> <id> <any> {<value>}*nn
    Output: SPECFAIL/MISMATCH <line> and an INFO line with the index of the first event at which the specification fails. *)
@@ -28,7 +28,8 @@ let () =
           { co_who = who_of w; co_status = n_of_int st; co_id = bytes_of_hex id; co_any = bytes_of_hex any; co_vals = vals } in
         let evs = List.init nev (fun _ ->
           match next () with
-          | "R" -> let p = next () in let m = next () in EvRegister (bytes_of_hex p, bytes_of_hex m)
+          | "R" -> let p = next () in let m = next () in EvRegister (bytes_of_hex p, bytes_of_hex m, true)
+          | "Q" -> let p = next () in let m = next () in EvRegister (bytes_of_hex p, bytes_of_hex m, false)
           | "B" ->
               let k = int_of_string (next ()) in let p = next () in let m = next () in
               let o = read_obs () in
